@@ -27,12 +27,24 @@
 // delivery history (first vote per distinct entitled sender, equivocators
 // weigh 0, invalid votes weigh 0, quorum = floor(0.685·T) restated here).
 //
-// Reduction: nothing delivered after the CommitEvent can change it, and two
-// orders that agree up to the delivery at which the reference commits are the
-// same execution up to there.  Unless a scenario is marked Full, an order is
-// executed up to that delivery and orders sharing the prefix run once (the
-// evidence counts both the orders and the executions).  If the implementation
-// commits earlier or not at that delivery the oracle reports it all the same.
+// Reduction: two orders that agree up to the delivery at which the reference
+// commits are the same execution up to there.  Unless a scenario is marked
+// Full or Late, an order is executed up to that delivery and orders sharing the
+// prefix run once (the evidence counts both the orders and the executions).
+// If the implementation commits earlier or not at that delivery the oracle
+// reports it all the same.  That "nothing delivered after the CommitEvent can
+// change it" is NOT assumed: it is checked (announced.go).  Every posted event
+// is kept as the live object the Voter handed to the mux and re-read after
+// every later event (any difference = violation); every announced CommitEvent
+// that saw later events is packed AGAIN from the live object (c01.PackCommit
+// and the real Server.commit, which in production runs later, on the engine's
+// event loop) and the header is offered to the real verifiers again.  The Late
+// scenarios (generateLate) supply the continuations in the quick tier: every
+// committing order of every subset, then every sequence of at most Late
+// further votes that can touch the announced set (an attached sender
+// precommits the other block, a late precommit for the committed block,
+// duplicates, other-block votes); the /full and certificate scenarios of the
+// thorough tier contain such continuations already.
 //
 // Tiers: quick = fixtures a, b, b-, c at the honest round index, outsider node
 // and member nodes (own precommit signed by the real Voter after a real prevote
@@ -120,6 +132,7 @@ type p2Spec struct {
 	Stale  bool   `json:"stale"`           // the node went through the previous round index first; votes of that index are in the alphabet
 	Max    int    `json:"max_msgs"`        // certificate scenarios: largest number of interleaved votes (0 = no limit)
 	Forge  int    `json:"forge,omitempty"` // borrowed-signature dimension (forge.go): 0 = off, 1 = quick alphabet, 2 = thorough alphabet
+	Late   int    `json:"late,omitempty"`  // post-commit dimension (generateLate): every committing order of every subset, then every sequence of at most Late further votes that can touch the announced set
 	Full   bool   `json:"full"`            // every order is executed to its end; otherwise an order is executed up to the delivery at which the reference commits, and orders sharing that prefix (identical executions up to the commit) run once
 }
 
@@ -134,6 +147,9 @@ func (s p2Spec) name() string {
 	}
 	if s.Forge > 0 {
 		n += fmt.Sprintf("/forge%d", s.Forge)
+	}
+	if s.Late > 0 {
+		n += fmt.Sprintf("/late%d", s.Late)
 	}
 	if s.Extras > 0 {
 		n += fmt.Sprintf("/x%d", s.Extras)
@@ -521,7 +537,7 @@ func (s *p2Scn) extras1(in map[string]bool, defects []string) []p2Extra {
 func (s *p2Scn) addCase(mask int, variant string, msgs []string) {
 	s.orders++
 	cp := append([]string{}, msgs...)
-	if !s.spec.Full && !s.spec.Cert {
+	if !s.spec.Full && !s.spec.Cert && s.spec.Late == 0 {
 		if k := s.predictCommit(cp); k < len(cp) {
 			cp = cp[:k+1]
 		}
@@ -617,6 +633,88 @@ func (s *p2Scn) generate(defects []string) {
 	}
 }
 
+// generateLate: the post-commit dimension.  For every subset of the senders and EVERY delivery order of its precommits
+// for A at whose LAST delivery the reference commits (member node: also "no delivery at all" when its own vote is the
+// quorum), every sequence of 1..Late DISTINCT further votes out of the ones that can touch the announced set:
+//
+//	PC:<m>:B  m attached to the commit   = equivocation after the announcement (its weight leaves the live tally)
+//	PC:<m>:B  m not attached             = other-block vote
+//	PC:<m>:A  m not attached             = late precommit for the committed block (joins the live tally)
+//	PC:<m>:A  m attached                 = duplicate
+//
+// Sequences of length 1 follow every committing order; longer ones the first committing order of each subset (the
+// orders of one subset differ only in how the same announced set was reached).
+func (s *p2Scn) generateLate() {
+	n := len(s.voters)
+	for mask := 0; mask < 1<<uint(n); mask++ {
+		in := map[string]bool{}
+		var base []string
+		skip := false
+		for i, m := range s.voters {
+			if mask&(1<<uint(i)) == 0 {
+				continue
+			}
+			if s.seats(m, ucon.Precommit, s.ri) == 0 {
+				skip = true
+			}
+			in[m.Name] = true
+			base = append(base, "PC:"+m.Name+":A")
+		}
+		if skip {
+			continue
+		}
+		type lateMsg struct{ name, class string }
+		var post []lateMsg
+		for _, m := range s.voters {
+			if s.seats(m, ucon.Precommit, s.ri) == 0 {
+				continue
+			}
+			if in[m.Name] {
+				post = append(post, lateMsg{"PC:" + m.Name + ":B", "equivocation of an attached sender"}, lateMsg{"PC:" + m.Name + ":A", "duplicate of an attached vote"})
+			} else {
+				post = append(post, lateMsg{"PC:" + m.Name + ":B", "other-block vote"}, lateMsg{"PC:" + m.Name + ":A", "late vote for the committed block"})
+			}
+		}
+		first := true
+		permutations(base, func(o []string) {
+			k := s.predictCommit(o)
+			if !(k == len(o)-1 && len(o) > 0) && !(k == -1 && len(o) == 0) {
+				return // the reference commits earlier (the rest of the order is itself a continuation covered from the smaller subset) or never
+			}
+			maxLen := 1
+			if first {
+				maxLen = s.spec.Late
+			}
+			first = false
+			var rec func(seq []lateMsg)
+			rec = func(seq []lateMsg) {
+				if len(seq) > 0 {
+					all := append([]string{}, o...)
+					var cl []string
+					for _, x := range seq {
+						all = append(all, x.name)
+						cl = append(cl, x.class)
+					}
+					s.addCase(mask, "after the commit: "+strings.Join(cl, ", then "), all)
+				}
+				if len(seq) >= maxLen {
+					return
+				}
+				for _, x := range post {
+					dup := false
+					for _, y := range seq {
+						dup = dup || y.name == x.name
+					}
+					if !dup {
+						rec(append(append([]lateMsg{}, seq...), x))
+					}
+				}
+			}
+			rec(nil)
+		})
+	}
+}
+
 // generateCert: certificate round — every (precommit subset, certificate subset) of the other members, every interleaving.
 func (s *p2Scn) generateCert() {
 	n := len(s.voters)
@@ -694,6 +792,7 @@ type p2Post struct {
 	msg    *ucon.BlockHashWithVotes
 	commit *ucon.CommitEvent
 	update *ucon.UpdateExistedHeaderEvent
+	raw    interface{} // the event exactly as the Voter handed it to the mux (announced.go)
 }
 
 type p2Node struct {
@@ -722,19 +821,19 @@ func (x *p2Node) onPost(ev interface{}) {
 			x.posts = append(x.posts, p2Post{what: "other"})
 			return
 		}
-		x.posts = append(x.posts, p2Post{what: "vote", kind: vt, msg: &m})
+		x.posts = append(x.posts, p2Post{what: "vote", kind: vt, msg: &m, raw: ev})
 	case ucon.CommitEvent:
 		c := e
-		x.posts = append(x.posts, p2Post{what: "commit", commit: &c})
+		x.posts = append(x.posts, p2Post{what: "commit", commit: &c, raw: ev})
 	case ucon.UpdateExistedHeaderEvent:
 		u := e
-		x.posts = append(x.posts, p2Post{what: "update", update: &u})
+		x.posts = append(x.posts, p2Post{what: "update", update: &u, raw: ev})
 	case ucon.RoundIndexChangeEvent:
-		x.posts = append(x.posts, p2Post{what: "change"})
+		x.posts = append(x.posts, p2Post{what: "change", raw: ev})
 	case ucon.TransferMessageEvent:
 		x.relays++
 	case staking.Evidence:
-		x.posts = append(x.posts, p2Post{what: "evidence"})
+		x.posts = append(x.posts, p2Post{what: "evidence", raw: ev})
 	default:
 		x.posts = append(x.posts, p2Post{what: "other"})
 	}
@@ -862,6 +961,8 @@ func (s *p2Scn) exec(cs *p2Case, res *p2Result, verbose bool) {
 	sawCommit := false    // a CommitEvent was posted
 	missedNoCert := false // certificate round: both quorums present, but the node has no certificate vote of its own to escalate with
 	var ownPC *ucon.SingleVote
+	var anns []*p2Ann              // everything the Voter posted so far: live object + rendering at the announcement (announced.go)
+	evNo := 0                      // number of the event (set-up step or delivery) being processed
 	sigSeen := map[string]string{} // BLS signature bytes -> how the node came to know them: "verified" (carried by a genuine vote it was given) | "own" (produced by the node itself)
 	verdicts := map[string]bool{}  // invalid message -> accepted at its first delivery
 
@@ -882,7 +983,22 @@ func (s *p2Scn) exec(cs *p2Case, res *p2Result, verbose bool) {
 		posts := x.posts
 		x.posts = nil
 		triggers := []string{trigger}
+		evNo++
+		// every EARLIER announcement is read again through its live object, as a consumer that gets to it only now
+		s.rereadAnnounced(cs, res, x, anns, event, logf)
 		for _, p := range posts {
+			if p.raw != nil {
+				if kind, lines := eventLines(p.raw, s.nameOf); kind != "" {
+					a := &p2Ann{kind: kind, raw: p.raw, commit: p.commit, at: event, first: lines, last: lines}
+					if p.commit != nil && p.commit.Block != nil {
+						a.bn = s.bname[p.commit.Block.Hash()]
+						a.pcw = ref.weight[int(ucon.Precommit)][a.bn]
+						a.set = setStr(ref.set(ucon.Precommit, a.bn))
+					}
+					anns = append(anns, a)
+					res.count("announced events tracked: " + kind)
+				}
+			}
 			switch p.what {
 			case "vote":
 				bn := s.bname[p.msg.BlockHash]
@@ -1107,6 +1223,57 @@ func (s *p2Scn) exec(cs *p2Case, res *p2Result, verbose bool) {
 		res.count("certificate round: commit delayed to the next certificate vote (node without a certificate vote of its own)")
 	}
 	res.counts["p2 messages relayed by the handler"] += int64(x.relays)
+	// the consumer that gets to the CommitEvent only now (Server.commit runs on the engine's event loop): pack the header
+	// from the LIVE event after everything that was delivered since and offer it to the real verifiers
+	for _, a := range anns {
+		if a.commit != nil && a.later > 0 {
+			s.lateCommit(cs, res, x, a, fmt.Sprintf("end of the execution, %d events after %s", a.later, a.at), logf)
+		}
+	}
+}
+
+// p2Ann is one announced event of a part-2 execution (see announced.go).
+type p2Ann struct {
+	kind   string
+	raw    interface{}
+	commit *ucon.CommitEvent
+	at     string // the event during which it was posted
+	bn     string
+	first  []string
+	last   []string
+	later  int
+	pcw    uint32 // CommitEvent: reference precommit weight and set at the announcement
+	set    string
+}
+
+// rereadAnnounced: after a later event, every announced event must read exactly as before; a CommitEvent that changed is
+// packed and verified right away as well (the consumer may get to it at any moment).
+func (s *p2Scn) rereadAnnounced(cs *p2Case, res *p2Result, x *p2Node, anns []*p2Ann, event string, logf func(string, ...interface{})) {
+	for _, a := range anns {
+		a.later++
+		_, now := eventLines(a.raw, s.nameOf)
+		res.count("announced events re-read after a later event")
+		if a.commit != nil {
+			res.count("announced CommitEvent re-read after a later event")
+		}
+		cls, det := diffLines(a.last, now)
+		if cls == "" {
+			continue
+		}
+		a.last = now
+		logf("    announced %s (posted during %s) CHANGED: %s", a.kind, a.at, det)
+		res.viol(fmt.Sprintf("an already announced %s changed afterwards (the event handed to the mux shares state with the Voter): %s", a.kind, cls),
+			fmt.Sprintf("posted during %s; after %s the event object the consumer holds reads differently: %s; deliveries %v", a.at, event, det, cs.Msgs))
+		if a.commit != nil {
+			s.lateCommit(cs, res, x, a, "right after "+event, logf)
+		}
+	}
+}
+
+// lateCommit: Server.commit (and the fixture packer) on the LIVE event, the packed header to the real verifiers.
+func (s *p2Scn) lateCommit(cs *p2Case, res *p2Result, x *p2Node, a *p2Ann, when string, logf func(string, ...interface{})) {
+	res.count("late consumer: announced commits packed again from the live event after later events")
+	s.packAndVerify(cs, res, x, a.commit, a.bn, when, a.pcw, a.set, true, logf)
 }
 
 func invalidClass(m p2Msg) string {
@@ -1202,26 +1369,45 @@ func (s *p2Scn) checkCommit(cs *p2Case, res *p2Result, ref *p2Ref, x *p2Node, ev
 		}
 	}
 	// 3. packing: fixture packer (c01.PackCommit = Server.commit's statements) and the real Server.commit
+	s.packAndVerify(cs, res, x, ev, bn, event, pcw, setStr(ref.set(ucon.Precommit, bn)), false, logf)
+}
+
+// packAndVerify packs the header of a CommitEvent (fixture packer and the real Server.commit) and offers it to the real
+// verifiers.  late = the event is the live object of a commit that was announced some events ago (pcw / set = the
+// reference weight and set at the announcement).
+func (s *p2Scn) packAndVerify(cs *p2Case, res *p2Result, x *p2Node, ev *ucon.CommitEvent, bn, event string, pcw uint32, set string, late bool, logf func(string, ...interface{})) {
+	c := s.c
+	sfx := ""
+	if late {
+		sfx = " (late consumer)"
+	}
 	type packed struct {
 		by string
 		h  *types.Header
 	}
 	var hs []packed
 	if h, err := c01.PackCommit(c, *ev); err != nil {
-		res.viol("packing the CommitEvent failed (c01.PackCommit)", fmt.Sprintf("%s: %v", event, err))
+		if late {
+			res.viol("late consumer: packing an already announced CommitEvent failed (c01.PackCommit)", fmt.Sprintf("%s: %v", event, err))
+		} else {
+			res.viol("packing the CommitEvent failed (c01.PackCommit)", fmt.Sprintf("%s: %v", event, err))
+		}
 	} else {
 		hs = append(hs, packed{"PackCommit", h})
 	}
 	before := len(x.inserted)
 	if msg := mc.Catch(func() { x.n.Commit(*ev) }); msg != "" {
-		res.viol("Server.commit panicked on the CommitEvent", fmt.Sprintf("%s: %s", event, msg))
+		res.viol("Server.commit panicked on the CommitEvent"+sfx, fmt.Sprintf("%s: %s", event, msg))
 	} else if len(x.inserted) != before+1 {
-		res.viol("Server.commit did not hand a block to the inserter", event)
+		res.viol("Server.commit did not hand a block to the inserter"+sfx, event)
 	} else {
 		hs = append(hs, packed{"Server.commit", x.inserted[before].Header()})
 	}
 	for _, p := range hs {
-		s.checkPacked(res, p.by, p.h, ev, bn, event)
+		p := p
+		if !late {
+			s.checkPacked(res, p.by, p.h, ev, bn, event)
+		}
 		for _, path := range []struct {
 			name string
 			f    func() error
@@ -1244,23 +1430,28 @@ func (s *p2Scn) checkCommit(cs *p2Case, res *p2Result, ref *p2Ref, x *p2Node, ev
 				p2Verdicts.Store(mk, p2Verdict{err, pmsg})
 				res.count("headers verified")
 			}
+			b := "above"
+			if pcw == s.q {
+				b = "exactly at"
+			} else if pcw < s.q {
+				b = "below"
+			}
 			switch {
+			case pmsg != "" && late:
+				res.viol(fmt.Sprintf("late consumer: %s panicked on the header packed from an already announced CommitEvent", path.name), fmt.Sprintf("%s [%s]: %s", event, p.by, pmsg))
 			case pmsg != "":
 				res.viol(fmt.Sprintf("%s panicked on the header packed from a CommitEvent", path.name), fmt.Sprintf("%s [%s]: %s", event, p.by, pmsg))
+			case err != nil && late:
+				res.viol(fmt.Sprintf("late consumer: the header packed from an already announced CommitEvent after later deliveries (as Server.commit does on the engine goroutine) is rejected by %s (weight at the announcement %s the quorum): %v", path.name, b, err),
+					fmt.Sprintf("%s [%s]: block %s, announced with {%s} weight %d quorum %d, the event now attaches %d precommits; deliveries %v", event, p.by, bn, set, pcw, s.q, len(ev.ChamberPrecommits), cs.Msgs))
 			case err != nil:
-				b := "above"
-				if pcw == s.q {
-					b = "exactly at"
-				} else if pcw < s.q {
-					b = "below"
-				}
 				res.viol(fmt.Sprintf("header packed from the CommitEvent is rejected by %s (attached weight %s the quorum): %v", path.name, b, err),
-					fmt.Sprintf("%s [%s]: block %s, attached {%s} weight %d quorum %d; deliveries %v", event, p.by, bn, setStr(ref.set(ucon.Precommit, bn)), pcw, s.q, cs.Msgs))
+					fmt.Sprintf("%s [%s]: block %s, attached {%s} weight %d quorum %d; deliveries %v", event, p.by, bn, set, pcw, s.q, cs.Msgs))
 			default:
-				res.count("headers accepted")
-				res.count("headers accepted by " + path.name)
+				res.count("headers accepted" + sfx)
+				res.count("headers accepted by " + path.name + sfx)
 			}
-			logf("      %-14s %-22s -> %v %s", p.by, path.name, err, pmsg)
+			logf("      %-14s %-22s -> %v %s%s", p.by, path.name, err, pmsg, sfx)
 		}
 	}
 }
@@ -1372,6 +1563,9 @@ func p2Plans(quick bool) (specs []p2Spec, defects []string) {
 			// borrowed-signature dimension (forge.go): every (forger, lender) pair, every order relative to the lender's genuine vote
 			{Cfg: "a", Me: "out", Forge: 1}, // four equal members, any three make the quorum: a counted forged vote completes a quorum
 			{Cfg: "a", Me: "a0", Forge: 1},  // member node: it has verified the others' prevotes (same signature bytes) before its own precommit
+			// post-commit dimension (generateLate): what is delivered AFTER the CommitEvent was posted and before its consumer packs it
+			{Cfg: "b", Me: "out", Late: 1}, // the whale's vote alone is exactly the quorum: the commit is announced at the boundary, then the whale (or anybody) votes again
+			{Cfg: "a", Me: "a0", Late: 2},  // member node: its own precommit + any two others (slack below one member's weight); pairs of further votes
 			// outsider node: all four entitled members are senders
 			{Cfg: "b", Me: "out", Extras: 1},  // the whale alone weighs exactly the quorum; B can win
 			{Cfg: "c", Me: "out", Extras: 1},  // four equal members (as in a) + house / offline / zero-stake senders
@@ -1396,6 +1590,13 @@ func p2Plans(quick bool) (specs []p2Spec, defects []string) {
 		{Cfg: "b", Me: "out", Forge: 2},
 		{Cfg: "b", Cert: true, Me: "b1", Forge: 2}, // certificate round: forged CERTIFICATE votes (the lender's precommit and certificate vote carry the same bytes)
 		{Cfg: "a", Cert: true, Me: "a0", Forge: 2},
+		// post-commit dimension (generateLate), pairs of further votes
+		{Cfg: "b", Me: "out", Late: 2},
+		{Cfg: "a", Me: "out", Late: 2},
+		{Cfg: "a", Me: "a0", Late: 2},
+		{Cfg: "b-", Me: "b0", Late: 2}, // own vote one seat below the quorum + any other member
+		{Cfg: "b", Me: "b1", Late: 2},
+		{Cfg: "b", Me: "b0", Late: 2}, // commit by the own vote alone: only late votes can follow
 		// every order to its end (deliveries after the commit included), the step-4 timer interleaved
 		{Cfg: "b", Me: "out", Extras: 1, Timer: true, Full: true},
 		{Cfg: "c", Me: "out", Extras: 1, Timer: true},
@@ -1425,7 +1626,7 @@ func part2(r *mc.Run) {
 	p2InstallHooks(r)
 	params.InitNetworkId(params.NetworkIdForTestCase)
 	c01.Quiet()
-	r.Rule += " || PART 2 (real crypto): per fixture of checks/c01 (validator sets a, b [whale alone = quorum], b- [whale one seat short], c [+ house/offline/zero-stake records]) a real node without goroutines (Server+SortitionManager+Proposal+Voter+MessageHandler wired as StartMining does, real credential verification against the committed look-back set) receives real signed wire messages through MessageHandler.HandleMsg: every subset of senders precommitting block A × one extra message (vote of any sender for the competing block B = equivocation or other-block vote; duplicate; over-claimed weight; votes of non-entitled records; thorough: + BLS signature over another payload, the step-4 timer, late votes of the previous round index, pairs of extras, certificate round with every interleaving of precommits and certificate votes) × every distinct delivery order; node = outsider key, or a member whose own precommit is produced by the real Voter after a real prevote quorum; an order is executed up to the delivery at which the reference commits and orders sharing that prefix (identical executions up to the commit) run once (scenarios marked /full: every order to its end); oracle = reference tally of the delivery history (commit exactly when the delivered valid distinct non-equivocating weight reaches floor(0.685·T), attached set exact and verbatim, header packed by c01.PackCommit and by the real Server.commit lists exactly those votes and is accepted by VerifyHeader, VerifySeal and VerifySideChainHeader); distinct = (scenario, subset, variant, executed order) || PART 2 borrowed-signature dimension (forge.go, BLS on: the signer is looked up by VoterIdx and the signed payload hash‖round‖index names neither signer nor vote kind): for EVERY ordered pair (forger X, lender Y) of seat holders (Y also the node itself when it is a member) the forged precommits 'X's own index, sortition credential and envelope + the BLS signature bytes of Y's genuine vote for the same (block, round, index)' and '... of Y's genuine vote for the other block' (both directions), interleaved in EVERY order with Y's genuine precommit (before it, after it, the same forged message twice = both), with Y's prevote instead (the other vote kind carries the same bytes), with X's own genuine precommit, and with every subset (quick: in the cross-block / other-kind forms subsets of size <= 1, in the twice / own-genuine forms the empty subset) of the other members' genuine precommits; oracles: a forged vote is refused on either side of the lender's vote, the verdict on one message never changes between two deliveries, after EVERY delivery of every part-2 scenario the tallies and vote sets the real Voter holds equal the reference tally of the delivery history, and every CommitEvent passes the checks above (real verifiers accept the packed header)"
+	r.Rule += " || PART 2 (real crypto): per fixture of checks/c01 (validator sets a, b [whale alone = quorum], b- [whale one seat short], c [+ house/offline/zero-stake records]) a real node without goroutines (Server+SortitionManager+Proposal+Voter+MessageHandler wired as StartMining does, real credential verification against the committed look-back set) receives real signed wire messages through MessageHandler.HandleMsg: every subset of senders precommitting block A × one extra message (vote of any sender for the competing block B = equivocation or other-block vote; duplicate; over-claimed weight; votes of non-entitled records; thorough: + BLS signature over another payload, the step-4 timer, late votes of the previous round index, pairs of extras, certificate round with every interleaving of precommits and certificate votes) × every distinct delivery order; node = outsider key, or a member whose own precommit is produced by the real Voter after a real prevote quorum; an order is executed up to the delivery at which the reference commits and orders sharing that prefix (identical executions up to the commit) run once (scenarios marked /full: every order to its end); oracle = reference tally of the delivery history (commit exactly when the delivered valid distinct non-equivocating weight reaches floor(0.685·T), attached set exact and verbatim, header packed by c01.PackCommit and by the real Server.commit lists exactly those votes and is accepted by VerifyHeader, VerifySeal and VerifySideChainHeader); distinct = (scenario, subset, variant, executed order) || PART 2 borrowed-signature dimension (forge.go, BLS on: the signer is looked up by VoterIdx and the signed payload hash‖round‖index names neither signer nor vote kind): for EVERY ordered pair (forger X, lender Y) of seat holders (Y also the node itself when it is a member) the forged precommits 'X's own index, sortition credential and envelope + the BLS signature bytes of Y's genuine vote for the same (block, round, index)' and '... of Y's genuine vote for the other block' (both directions), interleaved in EVERY order with Y's genuine precommit (before it, after it, the same forged message twice = both), with Y's prevote instead (the other vote kind carries the same bytes), with X's own genuine precommit, and with every subset (quick: in the cross-block / other-kind forms subsets of size <= 1, in the twice / own-genuine forms the empty subset) of the other members' genuine precommits; oracles: a forged vote is refused on either side of the lender's vote, the verdict on one message never changes between two deliveries, after EVERY delivery of every part-2 scenario the tallies and vote sets the real Voter holds equal the reference tally of the delivery history, and every CommitEvent passes the checks above (real verifiers accept the packed header) || PART 2 post-commit dimension (generateLate; the CommitEvent is consumed later, on another goroutine, while the Voter keeps processing votes): for every subset of the senders and EVERY delivery order at whose last delivery the reference commits (member nodes: the own vote included), every sequence of at most Late (quick: 1 on fixture b outsider node [commit exactly at the quorum by the whale alone], 2 on fixture a member node; thorough: 2 on a, b, b-, outsider and member nodes) distinct further votes that can touch the announced set — PC:m:B of an attached sender (equivocation after the announcement), PC:m:A of a sender not attached (late vote), duplicates, other-block votes (length 1 after every committing order, longer sequences after the first committing order of each subset); oracles in EVERY part-2 scenario: each event the Voter posted is kept as the live object and re-read after every later event — any difference to its rendering at the announcement is a violation — and every announced CommitEvent followed by further events is packed again from the live object by c01.PackCommit and by the real Server.commit (right after a change and at the end of the execution) and the header must again be accepted by VerifyHeader, VerifySeal and VerifySideChainHeader"
 	r.Assume("part 2: credentials are real (VRF sortition proofs, BLS vote signatures and ECDSA envelopes produced with the fixture's keys and verified by the production code against the fixture's committed look-back validator set)")
 	r.Assume("part 2, forged votes: the forger is a committee member with a seat (its sortition credential and envelope are genuine) and has seen the lender's genuine vote on the gossip network; it cannot produce a signature under a key it does not hold")
 	r.Assume("part 2: the harness plays the event mux synchronously (one handler call = one atomic step); the competing block B is a second proposal of the same proposer (equivocating proposer); message timestamps are fixed")
@@ -1464,6 +1665,8 @@ func part2(r *mc.Run) {
 		switch {
 		case sp.Forge > 0:
 			fst = s.generateForge()
+		case sp.Late > 0:
+			s.generateLate()
 		case sp.Cert:
 			s.generateCert()
 		default:
